@@ -219,7 +219,7 @@ Section Body.
              rt_spec c E dyn desel w t f (mkTres OSkipPrevFailed w [])
   | RT_persist : skipflag t dyn desel = false -> existsb (fun b => b) (m_skipif t) = false ->
                  has_dyn MAncFailed (tid t) dyn = false -> persist_fires E w t = true ->
-                 rt_spec c E dyn desel w t f (mkTres OPersist (record_states E w t) [])
+                 rt_spec c E dyn desel w t f (mkTres OPersist (if dry_run c then w else record_states E w t) [])
   | RT_wouldmark : skipflag t dyn desel = false -> existsb (fun b => b) (m_skipif t) = false ->
                    has_dyn MAncFailed (tid t) dyn = false -> persist_fires E w t = false ->
                    has_dyn MWould (tid t) dyn = true ->
@@ -307,6 +307,7 @@ Section Body.
   Proof.
     intros r. subst r. rt c E dyn desel w t f.
     destruct SP; simpl; intros; try discriminate; auto.
+    destruct (dry_run c); auto.
   Qed.
 
   (* events are either none or exactly one Start/Finish pair of this task *)
@@ -379,6 +380,7 @@ Section Body.
   Proof.
     intros Hne. rt c E dyn desel w t f.
     destruct SP; cbn [r_world]; auto;
+      try (destruct (dry_run c); [reflexivity|]);
       try rewrite record_states_other by exact Hne; auto; rb_db; rewrite D; reflexivity.
   Qed.
 
@@ -388,7 +390,7 @@ Section Body.
     lookup k (fs (r_world (run_task body c E dyn desel w t f))) = lookup k (fs w).
   Proof.
     intros Hn. rt c E dyn desel w t f.
-    destruct SP; cbn [r_world]; rewrite ?record_fs; auto;
+    destruct SP; cbn [r_world]; try (destruct (dry_run c); [reflexivity|]); rewrite ?record_fs; auto;
       rb_with (run_body_frame w t f k Hn); exact D.
   Qed.
 
@@ -397,7 +399,7 @@ Section Body.
     lookup k (fs (r_world (run_task body c E dyn desel w t f))) <> None.
   Proof.
     intros Hk. rt c E dyn desel w t f.
-    destruct SP; cbn [r_world]; rewrite ?record_fs; auto;
+    destruct SP; cbn [r_world]; try (destruct (dry_run c); [exact Hk|]); rewrite ?record_fs; auto;
       rb_with (run_body_monotone w t f k Hk); exact D.
   Qed.
 
@@ -409,7 +411,16 @@ Section Body.
     r_events r = [] /\ fs (r_world r) = fs w /\ r_out r = OFail.
   Proof.
     intros D r. subst r. rt c E dyn desel w t f.
-    destruct SP; simpl; auto; congruence.
+    destruct SP; simpl; rewrite ?D; auto; congruence.
+  Qed.
+
+  (* C10: in a dry run neither files nor recorded states change - for any task, also a
+     persisted one (F22, repaired: PERSISTENCE used to be recorded in dry runs) *)
+  Theorem dry_run_world c E dyn desel w t f :
+    dry_run c = true -> r_world (run_task body c E dyn desel w t f) = w.
+  Proof.
+    intros D. rt c E dyn desel w t f.
+    destruct SP; simpl; rewrite ?D; auto; congruence.
   Qed.
 
   (* C06: a skip marker (own, inherited, deselection, true skipif) means SKIP, silently *)
@@ -519,7 +530,8 @@ Section Body.
     skipflag t dyn desel = false -> existsb (fun b => b) (m_skipif t) = false ->
     has_dyn MAncFailed (tid t) dyn = false ->
     m_persist t = true -> all_exist E w t = true -> any_changed E w t = true ->
-    run_task body c E dyn desel w t f = mkTres OPersist (record_states E w t) [].
+    run_task body c E dyn desel w t f =
+    mkTres OPersist (if dry_run c then w else record_states E w t) [].
   Proof.
     intros S1 S2 S3 P A Ch.
     assert (PF : persist_fires E w t = true) by (unfold persist_fires; rewrite P, A, Ch; auto).
@@ -539,13 +551,14 @@ Section Body.
     skipflag t dyn desel = false -> existsb (fun b => b) (m_skipif t) = false ->
     has_dyn MAncFailed (tid t) dyn = false ->
     m_persist t = true -> all_exist E w t = true -> any_changed E w t = true ->
+    dry_run c = false ->
     force c' = false -> skipflag t dyn' desel = false ->
     has_dyn MAncFailed (tid t) dyn' = false -> has_dyn MWould (tid t) dyn' = false ->
     let w1 := r_world (run_task body c E dyn desel w t f) in
     run_task body c' E dyn' desel w1 t f' = mkTres OSkipUnchanged w1 [].
   Proof.
-    intros S1 S2 S3 P A Ch F' S1' S3' S4' w1. subst w1.
-    rewrite (persist_spec c E dyn desel w t f S1 S2 S3 P A Ch). simpl.
+    intros S1 S2 S3 P A Ch ND F' S1' S3' S4' w1. subst w1.
+    rewrite (persist_spec c E dyn desel w t f S1 S2 S3 P A Ch). rewrite ND. simpl.
     apply unchanged_complete; auto.
     apply recorded_rows_match. apply all_exist_spec. exact A.
   Qed.
